@@ -382,9 +382,17 @@ class kwargs_support(wrapper):
     def _args(self):
         return getargs(self.function)
         
+    @property
+    def _varkw(self):
+        try:
+            return getargspec(self.function).varkw
+        except Exception:
+            return None
+
     def wrapped(self, *args, **kwargs):
-        _args = self._args
-        kwargs = {key : value for key, value in kwargs.items() if key in _args}
+        if self._varkw is None: ## a function that declares **kwargs already accepts every keyword
+            _args = self._args
+            kwargs = {key : value for key, value in kwargs.items() if key in _args}
         return self.function(*args, **kwargs)
  
 
